@@ -10,17 +10,398 @@ namespace SasLexer
 open Prog (perform)
 open P
 
-/-- STUB -/
-def dispatchModeMacroEval (_cfg : Cfg) (_c : Char) (_flags _pnl : Nat) : Prog Unit :=
-  unmodelled "dispatch_mode_macro_eval"
-/-- STUB; `foundName` is the mode's first field (Rust passes `!found_name`) -/
-def dispatchMacroNameExpr (_cfg : Cfg) (_c : Char) (_foundName : Bool) (_err : Option ErrorKind) : Prog Unit :=
-  unmodelled "dispatch_macro_name_expr"
-/-- STUB -/
-def dispatchMacroSemiTermTextExpr (_cfg : Cfg) (_c : Char) : Prog Unit :=
-  unmodelled "dispatch_macro_semi_term_text_expr"
-/-- STUB -/
-def dispatchMacroStatOptsTextExpr (_cfg : Cfg) (_c : Char) : Prog Unit :=
-  unmodelled "dispatch_macro_stat_opts_text_expr"
+/-- the first-letter pattern `'e' | 'n' | 'l' | 'g' | 'a' | 'o' | 'i' | 'E' | …` of the mnemonic arms -/
+def isMnemonicStartChar (c : Char) : Bool :=
+  c == 'e' || c == 'n' || c == 'l' || c == 'g' || c == 'a' || c == 'o' || c == 'i'
+  || c == 'E' || c == 'N' || c == 'L' || c == 'G' || c == 'A' || c == 'O' || c == 'I'
+
+/-- the symbol pattern `'*' | '(' | ')' | '|' | '¬' | '^' | '~' | '+' | '-' | '<' | '>' | '=' | '#'`
+of `lex_macro_string_in_macro_eval_context` -/
+def isEvalSymbolTerminator (c : Char) : Bool :=
+  c == '*' || c == '(' || c == ')' || c == '|' || c == '¬' || c == '^' || c == '~' || c == '+'
+  || c == '-' || c == '<' || c == '>' || c == '=' || c == '#'
+
+/-- second char of the remaining text or `EOF_CHAR` (`cursor.peek_next()` on a `rest` already read) -/
+def nextOf (r : List Char) : Char := (r.drop 1).head?.getD (Char.ofNat 0)
+
+/-! ## `maybe_emit_empty_macro_string_in_eval` -/
+def maybeEmitEmptyMacroStringInEval (next : Option TokenType) : Prog Unit := do
+  let exprEnd := match next with
+    | none => true
+    | some t => t == .RPAREN || t == .KwAND || t == .KwOR
+  let opFollows := match next with
+    | some t => isMacroEvalLogicalOp t
+    | none => false
+  if exprEnd || opFollows then
+    match (← perform .lastDefaultTok) with
+    | some prev =>
+      if isMacroEvalLogicalOp prev
+          || (prev == .LPAREN || prev == .ASSIGN || prev == .KwmIf || prev == .KwmTo || prev == .KwmBy
+              || prev == .COMMA || prev == .KwAND || prev == .KwOR) then
+        emitD .MacroStringEmpty
+    | none => pure ()
+
+/-! ## `lex_macro_eval_operator` -/
+
+/-- the closure `update_parens_nesting` of `lex_macro_eval_operator` (`u32` arithmetic) -/
+def updateParensNesting (cfg : Cfg) (increment : Bool) : Prog Unit := do
+  if increment then
+    perform (.modifyTop fun m => match m with
+      | .macroEval f p => .macroEval f ((p + 1) % 4294967296)
+      | m => m)
+  else
+    -- `debug_assert!(*parens_nesting_level > 0)` sits inside the `if let Some(MacroEval{..})`;
+    -- in a debug build the entry assertion of the caller has already made the stack non-empty
+    dbg cfg (do match (← mode) with
+                | .macroEval _ p => pure (decide (p > 0))
+                | _ => pure true) "lex_macro_eval_operator: parens_nesting_level > 0"
+    perform (.modifyTop fun m => match m with
+      | .macroEval f p => .macroEval f (p - 1)
+      | m => m)
+
+/-- `lex_macro_eval_operator` -/
+def lexMacroEvalOperator (cfg : Cfg) (c : Char) : Prog Bool := do
+  dbg cfg (do match (← mode) with
+              | .macroEval _ _ => pure true
+              | _ => pure false) "lex_macro_eval_operator: mode"
+  let r ← rest
+  let nxt := nextOf r
+  let sel : Option (TokenType × Nat) ← (do
+    if c == '*' then
+      if nxt == '*' then pure (some (TokenType.STAR2, 1)) else pure (some (TokenType.STAR, 0))
+    else if c == '(' then do
+      updateParensNesting cfg true
+      pure (some (TokenType.LPAREN, 0))
+    else if c == ')' then do
+      updateParensNesting cfg false
+      pure (some (TokenType.RPAREN, 0))
+    else if c == '|' then pure (some (TokenType.PIPE, 0))
+    else if c == '¬' || c == '^' || c == '~' then
+      if nxt == '=' then pure (some (TokenType.NE, 1)) else pure (some (TokenType.NOT, 0))
+    else if c == '+' then pure (some (TokenType.PLUS, 0))
+    else if c == '-' then pure (some (TokenType.MINUS, 0))
+    else if c == '<' then
+      if nxt == '=' then pure (some (TokenType.LE, 1)) else pure (some (TokenType.LT, 0))
+    else if c == '>' then
+      if nxt == '=' then pure (some (TokenType.GE, 1)) else pure (some (TokenType.GT, 0))
+    else if c == '=' then pure (some (TokenType.ASSIGN, 0))
+    else if c == '#' then pure (some (TokenType.HASH, 0))
+    else if isMnemonicStartChar c then
+      match isMacroEvalMnemonic r with
+      | (some ty, extra) => pure (some (ty, extra))
+      | (none, _) => pure none
+    else pure none)
+  match sel with
+  | none => pure false
+  | some (ty, extra) =>
+    maybeEmitEmptyMacroStringInEval (some ty)
+    advanceBy (1 + extra)
+    emitD ty
+    pushMode .wsOrCStyleCommentOnly
+    pure true
+
+/-! ## `lex_macro_string_in_macro_eval_context`
+
+The Rust local `ws_mark` is the `mark` register; the loop returns `try_lexing_numeric`
+(`may_precede_mnemonic` is a loop parameter). -/
+def lexMacroStringInMacroEvalContextLoop (flags : Nat) (terminateOnComma : Bool) :
+    Nat → Bool → Bool → Prog Bool
+  | 0, tryNum, _ => do abort "fuel:lex_macro_string_in_macro_eval_context"; pure tryNum
+  | f + 1, tryNum, mayPrecede => do
+    let r ← rest
+    match r.head? with
+    | none => pure tryNum
+    | some c =>
+      if isEvalSymbolTerminator c then pure tryNum
+      else if c == '\'' || c == '"' then do
+        perform .clearMark
+        pure false
+      else if c == '/' then
+        if nextOf r == '*' then do
+          perform .clearMark
+          pure false
+        else pure tryNum
+      else if c == ';' && EvalFlags.terminateOnSemi flags then pure tryNum
+      else if c == ',' && terminateOnComma then pure tryNum
+      else if c == '&' then
+        if (isMacroAmp r 0).1 then do
+          perform .clearMark
+          pure false
+        else pure tryNum
+      else if c == '%' then
+        if isMacroPercent (nextOf r) true then
+          if !isMacroStat r then do
+            perform .clearMark
+            pure false
+          else pure tryNum
+        else do
+          advance_
+          perform .clearMark
+          lexMacroStringInMacroEvalContextLoop flags terminateOnComma f false true
+      else if c == '\n' then do
+        perform .markIfNone
+        advance_
+        addLine
+        lexMacroStringInMacroEvalContextLoop flags terminateOnComma f tryNum mayPrecede
+      else if isWhitespace c then do
+        perform .markIfNone
+        advance_
+        lexMacroStringInMacroEvalContextLoop flags terminateOnComma f tryNum mayPrecede
+      else do
+        let hasMark ← perform .hasMark
+        if isMnemonicStartChar c && (hasMark || mayPrecede) then
+          match isMacroEvalMnemonic r with
+          | (some _, _) => pure tryNum
+          | (none, _) =>
+            -- `may_precede_mnemonic` is *not* updated in this arm
+            perform .clearMark
+            advance_
+            lexMacroStringInMacroEvalContextLoop flags terminateOnComma f false mayPrecede
+        else
+          advance_
+          let tryNum' ← (do
+            if hasMark then
+              perform .clearMark
+              pure false
+            else pure tryNum)
+          lexMacroStringInMacroEvalContextLoop flags terminateOnComma f tryNum' (!isXidContinue c)
+
+/-- `lex_macro_string_in_macro_eval_context` -/
+def lexMacroStringInMacroEvalContext (cfg : Cfg) (flags : Nat) (terminateOnComma : Bool) : Prog Unit := do
+  dbg cfg (do match (← mode) with
+              | .macroEval f _ => pure (f == flags)
+              | _ => pure false) "lex_macro_string_in_macro_eval_context: mode"
+  -- `let mut ws_mark = None;`
+  perform .clearMark
+  let tryNum ← lexMacroStringInMacroEvalContextLoop flags terminateOnComma (← fuelOfRest) true true
+  let ms ← perform .pendingTextToMark
+  if !ms.isEmpty then
+    if tryNum then
+      let lastIsX := ms.getLast? == some 'x' || ms.getLast? == some 'X'
+      if lastIsX && optAny ms.head? isAsciiDigit then
+        match tryParseHexInteger ms.dropLast with
+        | some res =>
+          if res.err.isNone && res.len == utf8Len ms - 1 then emitD res.ty res.payload
+          else emitD .MacroString
+        | none => emitD .MacroString
+      else
+        match tryParseDecimal ms true (EvalFlags.floatMode flags) with
+        | some res =>
+          if res.err.isNone && res.len == utf8Len ms then emitD res.ty res.payload
+          else emitD .MacroString
+        | none => emitD .MacroString
+    else emitD .MacroString
+  if (← perform .hasMark) then
+    perform (.emitTokenAtMark .HIDDEN .WS .none)
+  -- the local `ws_mark` goes out of scope (model-only register, nothing else reads it)
+  perform .clearMark
+
+/-! ## `dispatch_mode_macro_eval` -/
+def dispatchModeMacroEval (cfg : Cfg) (c : Char) (flags pnl : Nat) : Prog Unit := do
+  dbg cfg (do pure ((← mode) == .macroEval flags pnl)) "dispatch_mode_macro_eval: mode"
+  startToken
+  let terminateOnComma := EvalFlags.terminateOnComma flags && (pnl == 0 || !EvalFlags.parensMaskComma flags)
+  if c == '\'' then lexSingleQuotedStr cfg
+  else if c == '"' then lexStringExpressionStart cfg false
+  else if c == '/' then
+    if (← peekNext) == '*' then lexCStyleComment cfg
+    else
+      advance_
+      emitD .FSLASH
+      pushMode .wsOrCStyleCommentOnly
+  else if c == '&' then
+    if !(← lexMacroVarExpr cfg) then
+      eatWhile (· == '&')
+      emitD .AMP
+      pushMode .wsOrCStyleCommentOnly
+  else if c == '%' then
+    match (← lexMacroCall cfg true (EvalFlags.terminateOnStat flags)) with
+    | .macroStat =>
+      maybeEmitEmptyMacroStringInEval none
+      popMode
+      if EvalFlags.terminateOnStat flags && EvalFlags.terminateOnSemi flags then
+        if (← mode) == .expectSemiOrEOF then popMode
+    | .none =>
+      advance_
+      let secondNext := (← peek).getD ' '
+      if isMacroEvalQuotableOp secondNext then
+        let _ ← lexMacroEvalOperator cfg secondNext
+        pure ()
+      else lexMacroStringInMacroEvalContext cfg flags terminateOnComma
+    | .macroCall => pure ()
+  else if c == ')' && pnl == 0 then
+    maybeEmitEmptyMacroStringInEval none
+    popMode
+  else if c == ',' && terminateOnComma then
+    maybeEmitEmptyMacroStringInEval none
+    popMode
+    match EvalFlags.followArgMode flags with
+    | .none => pure ()
+    | .singleEvalExpr =>
+      pushMode (.macroEval (EvalFlags.new (EvalFlags.numericMode flags) .none false false false) 0)
+    | .evalExpr =>
+      pushMode (.macroEval
+        (EvalFlags.new (EvalFlags.numericMode flags) .evalExpr false false (EvalFlags.parensMaskComma flags)) 0)
+    | .macroArg =>
+      pushMode (.macroCallValue (ArgFlags.new .builtInMacro true true) 0)
+    advance_
+    emitD .COMMA
+    pushMode .wsOrCStyleCommentOnly
+  else if c == ';' && EvalFlags.terminateOnSemi flags then
+    maybeEmitEmptyMacroStringInEval none
+    popMode
+  else
+    if !(← lexMacroEvalOperator cfg c) then
+      lexMacroStringInMacroEvalContext cfg flags terminateOnComma
+
+/-! ## `dispatch_macro_name_expr` -/
+
+/-- `dispatch_macro_name_expr`; `foundName` is the mode's first field (Rust passes
+`first_token = !found_name`) -/
+def dispatchMacroNameExpr (cfg : Cfg) (c : Char) (foundName : Bool) (err : Option ErrorKind) : Prog Unit := do
+  let firstToken := !foundName
+  dbg cfg (do pure ((← mode) == .macroNameExpr foundName err)) "dispatch_macro_name_expr: mode"
+  startToken
+  let popModeAndCheck : Prog Unit := do
+    if firstToken then
+      match err with
+      | some e => emitError e
+      | none => pure ()
+    popMode
+  -- `self.mode_stack.len() - 1` (the stack is non-empty: `lex_token` has just read the mode)
+  let startModeIndex := (← perform .modeDepth) - 1
+  let updateMode : Prog Unit := do
+    let ok ← perform (.modifyAt startModeIndex fun m => match m with
+      | .macroNameExpr _ e => some (.macroNameExpr true e)
+      | _ => none)
+    if !ok then emitError .InternalErrorUnexpectedModeStack
+  if c == '/' && (← peekNext) == '*' then lexCStyleComment cfg
+  else if c == '&' then
+    if !(← lexMacroVarExpr cfg) then popModeAndCheck
+    else if firstToken then updateMode
+  else if c == '%' then
+    match (← lexMacroCall cfg false false) with
+    | .macroStat | .none => popModeAndCheck
+    | .macroCall => if firstToken then updateMode
+  else if isUnicodeNameStart c || (!firstToken && isXidContinue c) then
+    eatWhile isXidContinue
+    emitD .MacroString
+    if firstToken then updateMode
+  else popModeAndCheck
+
+/-! ## `lex_macro_string_unrestricted` -/
+def lexMacroStringUnrestrictedLoop : Nat → Prog Unit
+  | 0 => abort "fuel:lex_macro_string_unrestricted"
+  | f + 1 => do
+    let r ← rest
+    match r.head? with
+    | none => emitD .MacroString
+    | some c =>
+      if c == '\'' || c == '"' then emitD .MacroString
+      else if c == '/' && nextOf r == '*' then emitD .MacroString
+      else if c == '&' then
+        let (isMacro, ampCount) := isMacroAmp r 0
+        if isMacro then emitD .MacroString
+        else do advanceBy ampCount; lexMacroStringUnrestrictedLoop f
+      else if c == '%' then
+        if isMacroPercent (nextOf r) false then emitD .MacroString
+        else do advance_; lexMacroStringUnrestrictedLoop f
+      else if c == '\n' then do advance_; addLine; lexMacroStringUnrestrictedLoop f
+      else if c == ';' then do emitD .MacroString; popMode
+      else do advance_; lexMacroStringUnrestrictedLoop f
+
+/-- `lex_macro_string_unrestricted` -/
+def lexMacroStringUnrestricted (cfg : Cfg) : Prog Unit := do
+  dbg cfg (do pure ((← mode) == .macroSemiTerminatedTextExpr)) "lex_macro_string_unrestricted: mode"
+  lexMacroStringUnrestrictedLoop (← fuelOfRest)
+
+/-! ## `dispatch_macro_semi_term_text_expr` -/
+def dispatchMacroSemiTermTextExpr (cfg : Cfg) (c : Char) : Prog Unit := do
+  dbg cfg (do pure ((← mode) == .macroSemiTerminatedTextExpr)) "dispatch_macro_semi_term_text_expr: mode"
+  startToken
+  if c == '\'' then lexSingleQuotedStr cfg
+  else if c == '"' then lexStringExpressionStart cfg false
+  else if c == '/' then
+    if (← peekNext) == '*' then lexCStyleComment cfg
+    else
+      advance_
+      lexMacroStringUnrestricted cfg
+  else if c == '&' then
+    if !(← lexMacroVarExpr cfg) then
+      eatWhile (· == '&')
+      lexMacroStringUnrestricted cfg
+  else if c == '%' then
+    match (← lexMacroCall cfg true false) with
+    | .macroStat => popMode
+    | .none =>
+      advance_
+      lexMacroStringUnrestricted cfg
+    | .macroCall => pure ()
+  else if c == '\n' then
+    advance_
+    addLine
+    lexMacroStringUnrestricted cfg
+  else if c == ';' then popMode
+  else
+    advance_
+    lexMacroStringUnrestricted cfg
+
+/-! ## `lex_macro_string_stat_opts` -/
+def lexMacroStringStatOptsLoop : Nat → Prog Unit
+  | 0 => abort "fuel:lex_macro_string_stat_opts"
+  | f + 1 => do
+    let r ← rest
+    match r.head? with
+    | none => emitD .MacroString
+    | some c =>
+      if c == '\'' || c == '"' || c == '/' || c == '=' then emitD .MacroString
+      else if isWhitespace c then emitD .MacroString
+      else if c == '&' then
+        let (isMacro, ampCount) := isMacroAmp r 0
+        if isMacro then emitD .MacroString
+        else do advanceBy ampCount; lexMacroStringStatOptsLoop f
+      else if c == '%' then
+        if isMacroPercent (nextOf r) false then emitD .MacroString
+        else do advance_; lexMacroStringStatOptsLoop f
+      else if c == ';' then do emitD .MacroString; popMode
+      else do advance_; lexMacroStringStatOptsLoop f
+
+/-- `lex_macro_string_stat_opts` -/
+def lexMacroStringStatOpts (cfg : Cfg) : Prog Unit := do
+  dbg cfg (do pure ((← mode) == .macroStatOptionsTextExpr)) "lex_macro_string_stat_opts: mode"
+  lexMacroStringStatOptsLoop (← fuelOfRest)
+
+/-! ## `dispatch_macro_stat_opts_text_expr` -/
+def dispatchMacroStatOptsTextExpr (cfg : Cfg) (c : Char) : Prog Unit := do
+  dbg cfg (do pure ((← mode) == .macroStatOptionsTextExpr)) "dispatch_macro_stat_opts_text_expr: mode"
+  startToken
+  if c == '\'' then lexSingleQuotedStr cfg
+  else if c == '"' then lexStringExpressionStart cfg false
+  else if c == '/' then
+    if (← peekNext) == '*' then lexCStyleComment cfg
+    else
+      advance_
+      emitD .FSLASH
+  else if c == '&' then
+    if !(← lexMacroVarExpr cfg) then
+      eatWhile (· == '&')
+      lexMacroStringStatOpts cfg
+  else if c == '%' then
+    match (← lexMacroCall cfg true false) with
+    | .macroStat => popMode
+    | .none =>
+      advance_
+      -- sic: the Rust calls the scanner of the *other* mode here (its debug assertion
+      -- then fires in debug builds)
+      lexMacroStringUnrestricted cfg
+    | .macroCall => pure ()
+  else if c == ';' then popMode
+  else if isWhitespace c then lexWs cfg
+  else if c == '=' then
+    advance_
+    emitD .ASSIGN
+  else
+    advance_
+    lexMacroStringStatOpts cfg
 
 end SasLexer
